@@ -68,12 +68,23 @@ fn gen_method(rng: &mut Rng, combo: usize) -> MethodEntry {
     let (start, end) = if with_range { (Some(number(rng)), Some(number(rng))) } else { (None, None) };
     let ostart = if orig_lines >= 1 { Some(number(rng)) } else { None };
     let oend = if orig_lines == 2 { Some(number(rng)) } else { None };
+    let orig_class = if with_class { Some(qualified(rng, 3)) } else { None };
+    // now and then the member is named after (the innermost part of) its qualifier, as a
+    // constructor printed Java-source style is, or by a compiler's synthetic-name scheme
+    let simple = orig_class.as_deref().map(|c| c.rsplit(['.', '$']).next().unwrap_or(c).to_string()).filter(|s| !s.is_empty());
+    let orig = match (rng.below(12), &simple) {
+        (0, Some(sn)) => sn.clone(),
+        (1, Some(sn)) => format!("lambda${sn}$0"),
+        (2, _) => format!("{}$default", ident(rng)),
+        _ => ident(rng),
+    };
+    let ret = if rng.chance(1, 4) { "void".to_string() } else { ty(rng) };
     MethodEntry {
         start,
         end,
-        ret: ty(rng),
-        orig_class: if with_class { Some(qualified(rng, 3)) } else { None },
-        orig: ident(rng),
+        ret,
+        orig_class,
+        orig,
         args: (0..nargs).map(|_| ty(rng)).collect::<Vec<_>>().join(","),
         ostart,
         oend,
